@@ -47,6 +47,10 @@ func main() {
 	if len(c.Violations) > 0 {
 		os.Exit(1)
 	}
+	if c.ModelFailures > 0 {
+		fmt.Fprintf(os.Stderr, "machinery failure: the model driver could not answer %d requests (see notes in evidence)\n", c.ModelFailures)
+		os.Exit(2)
+	}
 }
 
 func doReplay(c *core.Ctx, path string) int {
